@@ -177,7 +177,7 @@ def run(args):
             missing = [d for d in written if d not in got]
             if real.startswith("rejected") or real.startswith("panic") or missing:
                 failures.append({"request": req, "real": real, "why": f"derive list lost {missing}" if missing else "model with these derives was not emitted"})
-            elif not rustc_accepts(got) and not ("PartialOrd" in written and not ({"PartialEq", "Eq", "Ord"} & set(written))):
+            elif not rustc_accepts(got):
                 failures.append({"request": req, "real": real, "why": "emitted derive list violates a supertrait requirement (rustc would reject it)"})
             else:
                 hist["derive_lists_ok"] += 1
